@@ -13,6 +13,7 @@ import (
 	"os"
 	"os/exec"
 	"path/filepath"
+	"runtime/pprof"
 	"strconv"
 	"strings"
 
@@ -125,7 +126,18 @@ func main() {
 		fs.IntVar(&o.Shard, "shard", 0, "")
 		fs.StringVar(&o.Journal, "journal", "", "")
 		fs.BoolVar(&o.CountOnly, "count", false, "")
+		prof := fs.String("cpuprofile", "", "")
 		fs.Parse(os.Args[2:])
+		if *prof != "" {
+			f, err := os.Create(*prof)
+			if err == nil {
+				pprof.StartCPUProfile(f)
+				code := runner.Worker(o)
+				pprof.StopCPUProfile()
+				f.Close()
+				os.Exit(code)
+			}
+		}
 		os.Exit(runner.Worker(o))
 	case "exec-tape":
 		// internal: execute a tape (JSON array of values) once; exit 0 = no
